@@ -8,6 +8,7 @@ Decided clauses:
   * R-SHIFT every variable shift amount is bounded below the operand width by a modulo/mask/guard,
             or listed as undecided; a guard that admits a boundary value making the amount >= width is a violation
   * R-CARRY a carry/borrow computed by comparison is consumed (or or-ed) before it is overwritten
+  * R-WSHIFT both halves of a double-word shift (lo = X << s; hi = X >> (W - s)) use the same operand
   * R-WIDTH (8/16-bit digits) no comparison/shift/division on an untruncated wrap-sensitive digit expression
 Not decided: numerical exactness of results.
 """
@@ -201,6 +202,41 @@ def shift_rule(rep, fn):
     return n
 
 
+def wide_shift_rule(rep, fn):
+    """R-WSHIFT: the double-word product by 2^s is written as  lo = X << s;  hi = Y >> (W - s)
+    in one basic block; both halves must shift the same operand (X == Y)."""
+    n = 0
+    for bid in fn.reachable_blocks():
+        shl, shr = [], []
+        for e in fn.blocks[bid].elems:
+            if e.get("k") != "bin" or e["op"] != "=":
+                continue
+            r = core.strip_casts(e["y"])
+            if r.get("k") != "bin":
+                continue
+            if r["op"] == "<<" and const_val(r["y"]) is None:
+                shl.append((key(core.strip_casts(r["x"])), key(core.strip_casts(r["y"])), e))
+            if r["op"] == ">>":
+                a = core.strip_casts(r["y"])
+                if a.get("k") == "bin" and a["op"] == "-" and const_val(a["x"]) is not None:
+                    w = fn.unit.type(r["t"]).get("w")
+                    if const_val(a["x"]) == w:
+                        shr.append((key(core.strip_casts(r["x"])), key(core.strip_casts(a["y"])), e))
+        for (x, s1, e1) in shl:
+            for (y, s2, e2) in shr:
+                if s1 != s2:
+                    continue
+                n += 1
+                inst = "%s<<%s" % (x, s1)
+                desc = "both halves of the double-word shift by %s use the same operand" % s1
+                if x == y:
+                    rep.proved("R-WSHIFT", fn, inst, desc, "lines %s/%s" % (e1["ln"], e2["ln"]), e1["ln"])
+                else:
+                    rep.violated("R-WSHIFT", fn, inst, desc, "low half shifts '%s' (line %s) but high half shifts '%s' (line %s)" % (
+                        x, e1["ln"], y, e2["ln"]), e2["ln"])
+    return n
+
+
 WRAP_OPS = {"+", "*", "<<", "-"}
 
 # candidates confirmed wrap-insensitive by reading (one line of reason each)
@@ -296,6 +332,7 @@ def run(rep, tier):
             e = shift_rule(rep, fn)
             width_rule(rep, fn, w)
             cc = r_carry.check(rep, fn)
+            wide_shift_rule(rep, fn)
             if first:
                 n_carry += cc
             if first:
@@ -328,6 +365,8 @@ def selftest():
             shift_rule(rep, fn)
             width_rule(rep, fn, 8)
             r_carry.check(rep, fn)
-    fixtures.expect(rep, ["fx_div_bad", "fx_div_bad_rewritten", "fx_shift_bad_boundary", "fx_width_bad", "fx_carry_bad"],
-                    ["fx_div_ok", "fx_div_ok_loop", "fx_div_ok_plus1", "fx_shift_ok_mod", "fx_shift_ok_guard", "fx_width_ok", "fx_carry_ok"],
+            wide_shift_rule(rep, fn)
+    fixtures.expect(rep, ["fx_div_bad", "fx_div_bad_rewritten", "fx_shift_bad_boundary", "fx_width_bad", "fx_carry_bad", "fx_wshift_bad"],
+                    ["fx_div_ok", "fx_div_ok_loop", "fx_div_ok_plus1", "fx_shift_ok_mod", "fx_shift_ok_guard", "fx_width_ok", "fx_carry_ok",
+                     "fx_wshift_ok"],
                     "R-DIV/R-SHIFT/R-WIDTH")
